@@ -1499,7 +1499,15 @@ impl ConnectionHandler for VarlinkService {
             // pop the last zero byte
             buf.pop();
 
-            let req: Request = serde_json::from_slice(&buf).map_err(|e| {
+            // a message is UTF-8 throughout: serde_json does not look into the strings
+            // of members it skips
+            let text = std::str::from_utf8(&buf).map_err(|e| {
+                context!(
+                    e,
+                    ErrorKind::SerdeJsonDe(String::from_utf8_lossy(&buf).to_string())
+                )
+            })?;
+            let req: Request = serde_json::from_str(text).map_err(|e| {
                 context!(
                     e,
                     ErrorKind::SerdeJsonDe(String::from_utf8_lossy(&buf).to_string())
